@@ -30,6 +30,8 @@ def main():
     ds["f"] = BaseType("f", np.arange(12, dtype="f8").reshape(3, 4) / 3)
     ds["s"] = BaseType("s", np.array(["ab", "c", ""]))
     ds["b"] = BaseType("b", np.array(7, dtype="u1"))
+    ds["flag"] = BaseType("flag", np.array([True, False, True, True, False, True]))      # numpy bool: sent as DAP2 Byte
+    ds["by"] = BaseType("by", np.arange(7, dtype="u1"))
     g = GridType("g")
     g["a"] = BaseType("a", np.arange(12, dtype="i2").reshape(3, 4), dims=("y", "z"))
     g["y"] = BaseType("y", np.arange(3) * 10.0)
@@ -51,8 +53,8 @@ def main():
     ds["lz"] = lz
     apps = {"plain": BaseHandler(ds), "gzip": BaseHandler(ds, gzip=True)}
 
-    names = ["x", "f", "s", "b", "g", "g.a", "g.y", "st", "st.m", "st.n", "q", "q.a", "q.c", "lz", "lz.k", "nope", "x.y", "q.zz", ""]
-    shapes = {"x": (10,), "f": (3, 4), "s": (3,), "g": (3, 4), "g.a": (3, 4), "g.y": (3,), "st.m": (4,)}
+    names = ["x", "f", "s", "b", "flag", "by", "g", "g.a", "g.y", "st", "st.m", "st.n", "q", "q.a", "q.c", "lz", "lz.k", "nope", "x.y", "q.zz", ""]
+    shapes = {"x": (10,), "flag": (6,), "by": (7,), "f": (3, 4), "s": (3,), "g": (3, 4), "g.a": (3, 4), "g.y": (3,), "st.m": (4,)}
 
     def valid_slab(name):
         sh = shapes.get(name)
@@ -71,7 +73,7 @@ def main():
 
     def valid_projection():
         vars_, roots = [], set()
-        for v in rng.sample(["x", "f", "s", "b", "g", "g.a", "st", "st.m", "st.n", "q", "q.a", "lz"], rng.randint(1, 3)):
+        for v in rng.sample(["x", "f", "s", "b", "flag", "by", "g", "g.a", "st", "st.m", "st.n", "q", "q.a", "lz"], rng.randint(1, 3)):
             if v.split(".")[0] not in roots:         # one projection item per top-level variable
                 roots.add(v.split(".")[0])
                 vars_.append(v)
@@ -121,7 +123,8 @@ def main():
         return rng.choice(["x" + "[0:1]" * 40, "a" * 3000, "x[0:" + "9" * 400 + "]"])
 
     paths_ok = ["/d.dds", "/d.das", "/d.dods", "/d.ascii", "/d.asc", "/d.ver", "/d.html", "/.dods", "/deep/er/d.dods", "/d.x.dods"]
-    paths_odd = ["/d", "/", "", "/d.", "/d.xyz", "/d.DODS", "/.", "/d.dods/", "/d dods", "/d.dods.", "/d..dds", "/d.json", "/d.nc"]
+    paths_odd = ["/d", "/", "", "/d.", "/d.xyz", "/d.DODS", "/.", "/d.dods/", "/d dods", "/d.dods.", "/d..dds", "/d.json", "/d.nc",
+                 "/d%FF.dods", "/%E9t%E9.dods", "/d%FF", "/d.%FF", "/d%C3%A9.dds", "/d%2Edods", "/d%00.dods"]
 
     def lz_selects_nothing(ce):
         """the listed known finding is exactly: a record range on the lazy sequence lz that starts beyond its 2 records"""
